@@ -41,6 +41,16 @@ Section NMap.
     | [] => [(k, v)]
     | (k', v') :: r => if N.eqb k' k then (k', v) :: r else (k', v') :: nset r k v
     end.
+  (* insertion that keeps the keys in ascending order (the representation of the cache's Go
+     map: a canonical list, so that two maps with the same entries are the same list) *)
+  Fixpoint nins (m : list (N * V)) (k : N) (v : V) : list (N * V) :=
+    match m with
+    | [] => [(k, v)]
+    | (k', v') :: r =>
+        if N.eqb k' k then (k, v) :: r
+        else if N.ltb k k' then (k, v) :: (k', v') :: r
+        else (k', v') :: nins r k v
+    end.
   Fixpoint ndel (m : list (N * V)) (k : N) : list (N * V) :=
     match m with [] => [] | (k', v') :: r => if N.eqb k' k then ndel r k else (k', v') :: ndel r k end.
 End NMap.
@@ -170,7 +180,7 @@ Record sm := mkSm { sm_sync : bool; sm_iskeyper : bool; sm_dkg : list (N * activ
 
 Definition sm_fresh : sm := mkSm false false [].
 
-Definition set_dkg (s : sm) (eon : N) (a : active) : sm := mkSm (sm_sync s) (sm_iskeyper s) (nset (sm_dkg s) eon a).
+Definition set_dkg (s : sm) (eon : N) (a : active) : sm := mkSm (sm_sync s) (sm_iskeyper s) (nins (sm_dkg s) eon a).
 Definition del_dkg (s : sm) (eon : N) : sm := mkSm (sm_sync s) (sm_iskeyper s) (ndel (sm_dkg s) eon).
 
 Variable me : addr.
@@ -192,14 +202,14 @@ Fixpoint load_dkgs (d : db) (rows : list (N * pure)) : tx (list (N * active)) :=
           | None => TErr
           | Some cr =>
               bind (load_dkgs d r) (fun rest =>
-                TOk (nset rest eon (mkActive p (eo_height er) false (cf_keypers cr))))
+                TOk (nins rest eon (mkActive p (eo_height er) false (cf_keypers cr))))
           end
       end
   end.
 
 Definition load (d : db) (s : sm) : tx sm :=
   if sm_sync s then TOk s
-  else bind (load_dkgs d (rev (db_pure d)))
+  else bind (load_dkgs d (db_pure d))
             (fun m => TOk (mkSm true (negb (Nat.eqb (length (db_cfgs d)) 0)) m)).
 
 (* ---- phase transitions ---- *)
